@@ -18,9 +18,14 @@ else), for an arbitrary `Env` (codec, number formatting, regex compiler, case ma
              `rindex_last_occurrence_or_zero`, `index_kind`
 * split    : `split_join`, `split_empty`, `split_blank`, `split_dispatch_single_char`, `split_frame`
 * sub/gsub : `gsub_leftmost_nonoverlapping`, `matchSeq_wellformed`, `sub_first_match`, `gsub_char`,
-             `expand_amp/_bs_amp/_bs_bs_amp/_bs_bs_bs_amp/_other/_bs_other/_no_amp`, `subst_result`, `subst_frame`
+             `expand_amp/_bs_amp/_bs_bs_amp/_bs_bs_bs_amp/_other/_bs_other/_no_amp`, `subst_result`, `subst_frame`,
+             `subst0_spec` (two-argument form: target $0, NF follows)
 * match    : `matchCore_spec`, `matchCore_default`, `match_sets_rstart_rlength`, `match_array`, `match_frame`
 * case/len : `tolower_idempotent`, `case_preserves_length`, `mapCase_length`, `mapCase_idempotent`, `length_spec`
+* mod-str.c: `trim_spec`, `trim_kind`, `compact_keeps_nonspace` (normspace), `charAt_spec`, `subchar_spec`,
+             `tocharcode_fromcharcode`, `frombcharcode_spec`, `isClass_spec`, `isclass_kind`, `tombs_frommbs`, `tonum_spec`
+* IGNORECASE: `index_ignorecase`, `split_ignorecase_id` (the regex-driven builtins only switch to the other compilation
+             of the pattern, which is an arbitrary `Matcher` in every theorem above)
 
 Frame ("none of them changes anything but its documented target"): length, substr, index, rindex, tolower and
 toupper are pure functions of their arguments in the model (no state in their type); `subst_frame`,
@@ -34,7 +39,10 @@ variable {α : Type} [DecidableEq α]
 
 /-! ## index / rindex -/
 
-theorem index_first_occurrence_or_zero (s p : List α) (start : Option Int) (hp : p ≠ []) :
+/-- index(s, p [, start]): 0 for a start before the string; otherwise the result is the 1-based position of the
+    first occurrence of `p` at or after the start position, or 0 when there is none there.  Holds for every
+    pattern, the empty one included (it occurs at every position up to length+1). -/
+theorem index_first_occurrence_or_zero (s p : List α) (start : Option Int) :
     let b := indexBoundary false s.length start
     let r := indexCore false s p start
     (b ≤ 0 → r = 0) ∧
@@ -43,24 +51,23 @@ theorem index_first_occurrence_or_zero (s p : List α) (start : Option Int) (hp 
       (∃ i : Nat, r = (i : Int) + 1 ∧ b - 1 ≤ (i : Int) ∧ Occurs p s i ∧
         ∀ j : Nat, b - 1 ≤ (j : Int) → j < i → ¬ Occurs p s j)) := by
   intro b r
-  have hplen : 0 < p.length := List.length_pos_iff.2 hp
-  have hr : r = if b > (s.length : Int) ∨ b ≤ 0 then 0
+  have hr : r = if b ≤ 0 ∨ b > (s.length : Int) + 1 then 0
       else match find (s.drop (b.toNat - 1)) p with
         | some i => ((b.toNat - 1 + i : Nat) : Int) + 1
         | none => 0 := indexCore_index s p start
   clear_value b r
   refine ⟨?_, ?_⟩
   · intro hb
-    rw [hr, if_pos (Or.inr hb)]
+    rw [hr, if_pos (Or.inl hb)]
   · intro hb
-    by_cases hbn : b > (s.length : Int)
+    by_cases hbn : b > (s.length : Int) + 1
     · left
       refine ⟨?_, ?_⟩
-      · rw [hr, if_pos (Or.inl hbn)]
+      · rw [hr, if_pos (Or.inr hbn)]
       · intro i hi ho
         have := ho.1
         omega
-    · have hcond : ¬ (b > (s.length : Int) ∨ b ≤ 0) := by omega
+    · have hcond : ¬ (b ≤ 0 ∨ b > (s.length : Int) + 1) := by omega
       rw [if_neg hcond] at hr
       cases hf : find (s.drop (b.toNat - 1)) p with
       | none =>
@@ -79,7 +86,8 @@ theorem index_first_occurrence_or_zero (s p : List α) (start : Option Int) (hp 
         rw [hf] at hr
         obtain ⟨h1, h2, h3⟩ := find_some p _ i' hf
         rw [List.drop_drop] at h2
-        refine ⟨b.toNat - 1 + i', hr, by omega, ⟨nonempty_prefix_drop_lt hp h2, h2⟩, ?_⟩
+        simp only [List.length_drop] at h1
+        refine ⟨b.toNat - 1 + i', hr, by omega, ⟨prefix_drop_bound (by omega) h2, h2⟩, ?_⟩
         intro j hj hji ho
         have hk : b.toNat - 1 ≤ j := by omega
         apply h3 (j - (b.toNat - 1)) (by omega)
@@ -88,30 +96,31 @@ theorem index_first_occurrence_or_zero (s p : List α) (start : Option Int) (hp 
         rw [this]; exact ho.2
 
 /-- two-argument index: the classical statement -/
-theorem index_two_args (s p : List α) (hp : p ≠ []) :
+theorem index_two_args (s p : List α) :
     let r := indexCore false s p none
     (r = 0 ∧ ∀ i, ¬ Occurs p s i) ∨
     (∃ i : Nat, r = (i : Int) + 1 ∧ Occurs p s i ∧ ∀ j, j < i → ¬ Occurs p s j) := by
-  have h := (index_first_occurrence_or_zero s p none hp).2 (by simp [indexBoundary])
+  have h := (index_first_occurrence_or_zero s p none).2 (by simp [indexBoundary])
   simp only [indexBoundary] at h
   rcases h with ⟨h1, h2⟩ | ⟨i, h1, h2, h3, h4⟩
   · left; exact ⟨h1, fun i => h2 i (by simp)⟩
   · right; exact ⟨i, h1, h3, fun j hj => h4 j (by simp) hj⟩
 
-/-- empty pattern, as the code does: the (valid) start position itself; out-of-range start (and the empty subject) gives 0 -/
+/-- the empty pattern is found at the start position itself, for every start position inside the string or
+    right behind it (so index("", "") = 1, as in gawk and mawk) -/
 theorem index_empty_pattern (s : List α) (start : Option Int) :
     let b := indexBoundary false s.length start
-    indexCore false s [] start = if 1 ≤ b ∧ b ≤ (s.length : Int) then b else 0 := by
+    indexCore false s [] start = if 1 ≤ b ∧ b ≤ (s.length : Int) + 1 then b else 0 := by
   intro b
-  have hr : indexCore false s [] start = if b > (s.length : Int) ∨ b ≤ 0 then 0
+  have hr : indexCore false s [] start = if b ≤ 0 ∨ b > (s.length : Int) + 1 then 0
       else match find (s.drop (b.toNat - 1)) ([] : List α) with
         | some i => ((b.toNat - 1 + i : Nat) : Int) + 1
         | none => 0 := indexCore_index s [] start
   clear_value b
   rw [hr]
-  by_cases hc : b > (s.length : Int) ∨ b ≤ 0
-  · rw [if_pos hc, if_neg (show ¬ (1 ≤ b ∧ b ≤ (s.length : Int)) by omega)]
-  · rw [if_neg hc, if_pos (show 1 ≤ b ∧ b ≤ (s.length : Int) by omega)]
+  by_cases hc : b ≤ 0 ∨ b > (s.length : Int) + 1
+  · rw [if_pos hc, if_neg (show ¬ (1 ≤ b ∧ b ≤ (s.length : Int) + 1) by omega)]
+  · rw [if_neg hc, if_pos (show 1 ≤ b ∧ b ≤ (s.length : Int) + 1 by omega)]
     have hf : find (s.drop (b.toNat - 1)) ([] : List α) = some 0 := by
       cases s.drop (b.toNat - 1) <;> simp [find, List.isPrefixOf]
     rw [hf]
@@ -128,7 +137,7 @@ theorem rindex_last_occurrence_or_zero (s p : List α) (start : Option Int) (hp 
       (∃ i : Nat, r = (i : Int) + 1 ∧ Occurs p w i ∧ ∀ j : Nat, i < j → ¬ Occurs p w j)) := by
   intro b r w
   have hplen : 0 < p.length := List.length_pos_iff.2 hp
-  have hr : r = if b > (s.length : Int) ∨ b ≤ 0 then 0
+  have hr : r = if b ≤ 0 ∨ b > (s.length : Int) + 0 then 0
       else match rfind w p with
         | some i => (i : Int) + 1
         | none => 0 := indexCore_rindex s p start
@@ -161,7 +170,6 @@ theorem rindex_last_occurrence_or_zero (s p : List α) (start : Option Int) (hp 
         refine ⟨i', hr, ⟨by omega, h2⟩, ?_⟩
         intro j hj ho
         exact h3 j hj (by have := ho.1; omega) ho.2
-
 
 /-! ## substr -/
 
@@ -610,7 +618,10 @@ example : substr [1, 2, 3, 4, 5] 2 none = [2, 3, 4, 5] := by decide
 example : indexCore false [1, 2, 3, 2, 3] [2, 3] none = 2 := by decide
 example : indexCore false [1, 2, 3, 2, 3] [2, 3] (some (-2)) = 4 := by decide
 example : indexCore true [1, 2, 3, 2, 3] [2, 3] none = 4 := by decide
-example : indexCore false ([] : List Nat) [] none = 0 := by decide
+example : indexCore false ([] : List Nat) [] none = 1 := by decide
+example : indexCore false [1, 2, 3] [] (some 4) = 4 := by decide
+example : indexCore false [1, 2, 3] [] (some 5) = 0 := by decide
+example : indexCore true ([] : List Nat) [] none = 0 := by decide
 example : Occurs [2, 3] [1, 2, 3] 1 := ⟨by decide, by decide⟩
 
 example : List.intercalate [0] (splitChars (fun x => x == 9) 9 [0] [1, 0, 0, 2]) = [1, 0, 0, 2] :=
@@ -639,5 +650,334 @@ example (s repl : List Nat) :
     substitute ⟨fun _ _ => none, by intro s k p l h; simp at h⟩ 92 38 s repl none = (s, 0) := by
   rw [gsub_leftmost_nonoverlapping, matchSeq_unfold]
   simp [belowLimit, render]
+
+/-! ## the str:: functions of mod-str.c and the IGNORECASE variants -/
+
+/-- str::normspace (hawk_compact_xchars) keeps exactly the non-space characters, in order -/
+theorem compact_keeps_nonspace (isSp : α → Bool) (s : List α) :
+    (compact isSp s).filter (fun x => !isSp x) = s.filter (fun x => !isSp x) := by
+  unfold compact
+  have hf := compactAux_filter isSp s false false
+  cases hr : compactAux isSp false false s with
+  | mk o f =>
+    rw [hr] at hf
+    simp only at hf ⊢
+    cases f with
+    | false => simpa using hf
+    | true =>
+      simp only [if_true]
+      have := compactAux_flag isSp s false false (fun _ => rfl) (by rw [hr])
+      rw [hr] at this
+      rcases this with ⟨h1, h2⟩ | ⟨o', c, h1, h2⟩
+      · simp at h2
+      · simp only at h1
+        subst h1
+        rw [List.dropLast_concat]
+        rw [← hf]
+        simp [h2]
+
+example : compact (fun x => x == 0) [0, 0, 1, 0, 0, 2, 3, 0] = [1, 0, 2, 3] := by decide
+example : compact (fun x => x == 0 || x == 9) [9, 1, 9, 0, 2, 0] = [1, 9, 2] := by decide
+
+/-- str::trim / ltrim / rtrim: the subject is (spaces) ++ result ++ (spaces), nothing but spaces is removed and
+    only on the requested sides, and the result does not begin (left) / end (right) with a space -/
+theorem trim_spec (isSp : α → Bool) (left right : Bool) (s : List α) :
+    ∃ a b, s = a ++ trimChars isSp left right s ++ b ∧
+      (∀ x ∈ a, isSp x = true) ∧ (∀ x ∈ b, isSp x = true) ∧
+      (left = false → a = []) ∧ (right = false → b = []) ∧
+      (left = true → ∀ x, (trimChars isSp left right s).head? = some x → isSp x = false) ∧
+      (right = true → ∀ x, (trimChars isSp left right s).getLast? = some x → isSp x = false) := by
+  cases left with
+  | false =>
+    cases right with
+    | false => exact ⟨[], [], by simp [trimChars], by simp, by simp, by simp, by simp, by simp, by simp⟩
+    | true =>
+      obtain ⟨b, hb1, hb2⟩ := trimRight_append isSp s
+      refine ⟨[], b, by simpa [trimChars] using hb1, by simp, hb2, by simp, by simp, by simp, ?_⟩
+      intro _ x hx
+      exact trimRight_last isSp s x (by simpa [trimChars] using hx)
+  | true =>
+    have ha := List.takeWhile_append_dropWhile (p := isSp) (l := s)
+    have hmem : ∀ x ∈ s.takeWhile isSp, isSp x = true := mem_takeWhile_true isSp s
+    have hhead : ∀ x, (s.dropWhile isSp).head? = some x → isSp x = false := by
+      intro x hx
+      cases hd : s.dropWhile isSp with
+      | nil => rw [hd] at hx; simp at hx
+      | cons a r =>
+        rw [hd] at hx; simp only [List.head?_cons, Option.some.injEq] at hx; subst hx
+        exact dropWhile_head_false isSp s a r hd
+    cases right with
+    | false =>
+      refine ⟨s.takeWhile isSp, [], by simpa [trimChars] using ha.symm, hmem, by simp, by simp, by simp, ?_, by simp⟩
+      intro _ x hx
+      exact hhead x (by simpa [trimChars] using hx)
+    | true =>
+      obtain ⟨b, hb1, hb2⟩ := trimRight_append isSp (s.dropWhile isSp)
+      refine ⟨s.takeWhile isSp, b, ?_, hmem, hb2, by simp, by simp, ?_, ?_⟩
+      · simp only [trimChars, if_true]
+        rw [List.append_assoc, ← hb1]; exact ha.symm
+      · intro _ x hx
+        simp only [trimChars, if_true] at hx
+        -- the head of the right-trimmed list is the head of the list (it is a prefix) whenever it is non-empty
+        cases ht : trimRight isSp (s.dropWhile isSp) with
+        | nil => rw [ht] at hx; simp at hx
+        | cons y r =>
+          rw [ht] at hx; simp only [List.head?_cons, Option.some.injEq] at hx; subst hx
+          apply hhead
+          rw [hb1, ht]; simp
+      · intro _ x hx
+        exact trimRight_last isSp _ x (by simpa [trimChars] using hx)
+
+example : trimChars (fun x => x == 0) true true [0, 0, 1, 0, 2, 0] = [1, 0, 2] := by decide
+example : trimChars (fun x => x == 0) true false [0, 0, 1, 0, 2, 0] = [1, 0, 2, 0] := by decide
+example : trimChars (fun x => x == 0) false true [0, 0, 1, 0, 2, 0] = [0, 0, 1, 0, 2] := by decide
+example : trimChars (fun x => x == 0) true true [0, 0] = ([] : List Nat) := by decide
+
+/-- str::subchar / str::tocharcode: a character is returned exactly for positions 1..length, and it is the
+    character substr(s, pos, 1) consists of -/
+theorem charAt_spec (s : List α) (pos : Int) :
+    (∀ c, charAt s pos = some c ↔ (1 ≤ pos ∧ pos ≤ (s.length : Int) ∧ s[(pos - 1).toNat]? = some c)) ∧
+    (1 ≤ pos → substr s pos (some 1) = (charAt s pos).toList) := by
+  refine ⟨?_, ?_⟩
+  · intro c
+    unfold charAt
+    simp only
+    by_cases h : 0 ≤ pos - 1 ∧ pos - 1 < (s.length : Int)
+    · rw [if_pos h]
+      constructor
+      · intro hc; exact ⟨by omega, by omega, hc⟩
+      · intro hc; exact hc.2.2
+    · rw [if_neg h]
+      constructor
+      · intro hc; simp at hc
+      · intro ⟨h1, h2, _⟩; omega
+  · intro hp
+    rw [substr_in_range s pos 1 hp (by omega)]
+    unfold charAt
+    simp only
+    by_cases h : 0 ≤ pos - 1 ∧ pos - 1 < (s.length : Int)
+    · rw [if_pos h]
+      have hlt : (pos - 1).toNat < s.length := by omega
+      rw [List.getElem?_eq_getElem hlt]
+      simp only [Option.toList_some]
+      have : (1 : Int).toNat = 1 := rfl
+      rw [this]
+      rw [List.take_one]
+      simp [List.head?_drop, List.getElem?_eq_getElem hlt]
+    · rw [if_neg h]
+      simp only [Option.toList_none]
+      rw [List.drop_of_length_le (by omega)]
+      simp
+
+example : charAt [7, 8, 9] 2 = some 8 := by decide
+example : charAt [7, 8, 9] 0 = none ∧ charAt [7, 8, 9] 4 = none := by decide
+
+/-- the is* class tests: 1 exactly for a non-empty text all of whose characters are in the class -/
+theorem isClass_spec (p : α → Bool) (s : List α) :
+    isClass p s = true ↔ s ≠ [] ∧ ∀ x ∈ s, p x = true := by
+  cases s <;> simp [isClass]
+
+example : isClass (fun x => x < 5) [1, 2] = true ∧ isClass (fun x => x < 5) [1, 7] = false ∧
+    isClass (fun x => x < 5) ([] : List Nat) = false := by decide
+
+/-- index/rindex under IGNORECASE are the case-sensitive search on the folded subject and pattern (so every
+    index theorem above holds "up to case"), and with the identity folding they are index/rindex themselves -/
+theorem index_ignorecase (fold : α → α) (rindex : Bool) (s p : List α) (start : Option Int) :
+    indexCoreIc fold rindex s p start = indexCore rindex (s.map fold) (p.map fold) start ∧
+    indexCoreIc id rindex s p start = indexCore rindex s p start := by
+  simp [indexCoreIc]
+
+example : indexCoreIc (fun x => x % 10) false [11, 22, 33] [2, 13] none = 2 := by decide
+
+/-- the case-folding tokeniser with the identity folding is the plain one (IGNORECASE only changes which
+    characters count as the delimiter), and the empty subject still has no pieces -/
+theorem split_ignorecase_id (isSp : α → Bool) (blank : α) (delim s : List α) :
+    tokCharsIc isSp blank id delim s = tokChars isSp blank delim s ∧
+    splitCharsIc isSp blank id delim [] = [] := by
+  refine ⟨?_, ?_⟩
+  · simp only [tokCharsIc, tokChars, tokNoSpacesIc, tokNoSpaces, tokCompositeIc, tokComposite, List.map_id, id]
+  · have h : tokCharsIc isSp blank id delim [] = ([], none) := by
+      simp only [tokCharsIc]
+      cases delimMode isSp blank delim <;>
+        simp [tokEmpty, tokSpaces, tokNoSpacesIc, tokCompositeIc, nextOrNull, trimRight]
+    unfold splitCharsIc
+    rw [piecesLoop_unfold, h]
+    simp
+
+example : splitCharsIc (fun x => x == 0) 0 (fun x => x % 10) [5] [1, 15, 2, 25, 3] = [[1], [2], [3]] := by
+  unfold splitCharsIc
+  rw [piecesLoop_unfold]; simp [tokCharsIc, delimMode, delimScan, tokNoSpacesIc]
+  rw [piecesLoop_unfold]; simp [tokCharsIc, delimMode, delimScan, tokNoSpacesIc]
+  rw [piecesLoop_unfold]; simp [tokCharsIc, delimMode, delimScan, tokNoSpacesIc]
+
+variable {σ : Type}
+
+/-- str::subchar and str::tocharcode pick the character at the position out of the bytes of a byte value and
+    out of the characters of the text of any other value; nil outside -/
+theorem subchar_spec (E : Env) (a0 a1 : Val) (r : Val) (h : fnSubchar E a0 a1 = some r) :
+    ∃ pos, a1.toInt = some pos ∧
+      r = (if a0.isBytes then (match charAt (a0.toBcs E) pos with | some b => Val.bchr b | none => Val.nil)
+           else (match charAt (a0.toStr E) pos with | some c => Val.chr c | none => Val.nil)) := by
+  unfold fnSubchar at h
+  cases hp : a1.toInt with
+  | none => simp [hp] at h
+  | some pos =>
+    simp only [hp] at h
+    refine ⟨pos, rfl, ?_⟩
+    split at h
+    · rename_i hb; simp only [Option.some.injEq] at h; subst h; rw [if_pos hb]; rfl
+    · rename_i hb; simp only [Option.some.injEq] at h; subst h; rw [if_neg hb]; rfl
+
+example : fnSubchar toyEnv (.str ['a', 'b']) (.int 2) = some (.chr 'b') ∧
+    fnSubchar toyEnv (.mbs [97, 98]) (.flt 15 1) = some (.bchr 97) ∧
+    fnSubchar toyEnv (.str ['a', 'b']) (.int 3) = some .nil := by decide
+
+/-- str::tocharcode of str::fromcharcode gives the codes back (two or more codes; valid 16-bit character codes) -/
+theorem tocharcode_fromcharcode (E : Env) (codes : List Int) (h2 : 2 ≤ codes.length)
+    (hv : ∀ c ∈ codes, validCharCode c = true) (i : Nat) (hi : i < codes.length) :
+    ∃ v, fnFromcharcode (codes.map Val.int) = some v ∧
+      fnTocharcode E v (some (.int (i + 1))) = some (.int codes[i]) := by
+  have hall : allInts (codes.map Val.int) = some codes := by
+    clear h2 hv hi
+    induction codes with
+    | nil => rfl
+    | cons c r ih => simp [allInts, Val.toInt, ih]
+  have hvalid : codes.all validCharCode = true := by
+    rw [List.all_eq_true]; exact hv
+  refine ⟨.str (codes.map fun c => Char.ofNat c.toNat), ?_, ?_⟩
+  · unfold fnFromcharcode
+    rw [hall]
+    simp only [hvalid, if_true]
+    match codes, h2 with
+    | _ :: _ :: _, _ => rfl
+  · have hc : validCharCode codes[i] = true := hv _ (List.getElem_mem hi)
+    have hnat : (Char.ofNat codes[i].toNat).toNat = codes[i].toNat := by
+      unfold validCharCode at hc
+      simp only [decide_eq_true_eq] at hc
+      have hvs : codes[i].toNat.isValidChar := by
+        unfold Nat.isValidChar; omega
+      simp [Char.ofNat, hvs, Char.ofNatAux, Char.toNat]
+    have hnn : 0 ≤ codes[i] := by
+      unfold validCharCode at hc
+      simp only [decide_eq_true_eq] at hc
+      omega
+    simp only [fnTocharcode, optInt, Val.toInt, Option.map_some, Val.isBytes, Val.toStr, Option.getD_some,
+      Bool.false_eq_true, if_false]
+    have : charAt (codes.map fun c => Char.ofNat c.toNat) ((i : Int) + 1) = some (Char.ofNat codes[i].toNat) := by
+      unfold charAt
+      simp only [List.length_map]
+      rw [if_pos (by omega)]
+      have e : ((i : Int) + 1 - 1).toNat = i := by omega
+      rw [e]
+      simp [hi]
+    rw [this]
+    simp only [hnat]
+    congr 2
+    omega
+
+example : ∃ v, fnFromcharcode [.int 72, .int 233] = some v ∧ fnTocharcode toyEnv v (some (.int 2)) = some (.int 233) := by
+  have := tocharcode_fromcharcode toyEnv [72, 233] (by decide) (by decide) 1 (by decide)
+  simpa using this
+
+/-- str::tombs yields a byte string and str::frommbs a string for every kind of value; an unknown encoding name
+    gives the empty result; a byte string / string passes through unchanged; and frommbs undoes tombs on any
+    string the codec round-trips -/
+theorem tombs_frommbs (E : Env) (v : Val) (s : List Char) (b : List UInt8) :
+    (∃ x, fnTombs E v .absent = .mbs x) ∧ (∃ y, fnFrommbs E v .absent = .str y) ∧
+    fnTombs E v .unknown = .mbs [] ∧ fnFrommbs E v .unknown = .str [] ∧
+    fnTombs E v .utf8 = fnTombs E v .absent ∧ fnFrommbs E v .utf8 = fnFrommbs E v .absent ∧
+    fnTombs E (.mbs b) .absent = .mbs b ∧ fnFrommbs E (.str s) .absent = .str s ∧
+    (E.dec (E.enc s) = s → fnFrommbs E (fnTombs E (.str s) .absent) .absent = .str s) := by
+  refine ⟨?_, ?_, by simp [fnTombs], by simp [fnFrommbs], by simp [fnTombs], by simp [fnFrommbs],
+    by simp [fnTombs], by simp [fnFrommbs], ?_⟩
+  · cases v <;> simp [fnTombs]
+  · cases v <;> simp [fnFrommbs]
+  · intro h; simp [fnTombs, fnFrommbs, Val.toBcs, Val.toStr, h]
+
+example : fnFrommbs toyEnv (fnTombs toyEnv (.str ['a', 'b']) .absent) .absent = .str ['a', 'b'] :=
+  (tombs_frommbs toyEnv .nil ['a', 'b'] []).2.2.2.2.2.2.2.2 (by decide)
+
+/-- str::tonum returns a number as it is whatever the base says, nil as 0, and for a string kind the value of its
+    sign-and-digits text in the base -/
+theorem tonum_spec (E : Env) (base : Option Val) :
+    (∀ i, fnTonum E (.int i) base = some (.int i)) ∧ (∀ m e, fnTonum E (.flt m e) base = some (.flt m e)) ∧
+    fnTonum E .nil base = some (.int 0) ∧
+    (∀ s bv, optInt base = some bv → 0 ≤ bv.getD 0 →
+      fnTonum E (.str s) base = (simpleNum (bv.getD 0).toNat (s.map Char.toNat)).map Val.int) := by
+  refine ⟨fun _ => rfl, fun _ _ => rfl, rfl, ?_⟩
+  intro s bv hb h0
+  simp only [fnTonum, hb, Val.isBytes, Val.toStr]
+  rw [if_neg (by omega)]
+  simp
+
+example : fnTonum toyEnv (.str "ff".toList) (some (.int 16)) = some (.int 255) ∧
+    fnTonum toyEnv (.str "-12".toList) none = some (.int (-12)) ∧
+    fnTonum toyEnv (.mbs [49, 48, 49]) (some (.int 2)) = some (.int 5) ∧
+    fnTonum toyEnv (.int 12) (some (.int 16)) = some (.int 12) := by decide
+
+/-- str::trim/ltrim/rtrim/normspace keep to the byte/character kind of their argument and work on its text -/
+theorem trim_kind (E : Env) (left right : Bool) (v : Val) :
+    fnTrim E left right v = (if v.isBytes then .mbs (trimChars E.spaceB left right (v.toBcs E))
+                             else .str (trimChars E.spaceC left right (v.toStr E))) ∧
+    fnNormspace E v = (if v.isBytes then .mbs (compact E.spaceB (v.toBcs E)) else .str (compact E.spaceC (v.toStr E))) ∧
+    fnTrimFlags E v none = some (fnTrim E true true v) ∧
+    fnTrimFlags E v (some (.int 1)) = some (fnNormspace E v) ∧ fnTrimFlags E v (some (.int 0)) = some (fnTrim E true true v) := by
+  refine ⟨rfl, rfl, rfl, ?_, ?_⟩ <;> simp [fnTrimFlags, optInt, Val.toInt]
+
+example : fnTrim toyEnv true true (.str " a b ".toList) = .str "a b".toList ∧
+    fnNormspace toyEnv (.mbs [32, 97, 32, 32, 98, 32]) = .mbs [97, 32, 98] := by decide
+
+/-- the class tests answer 1/0 on the bytes of a byte value and on the characters of the text of any other -/
+theorem isclass_kind (E : Env) (pc : Char → Bool) (pb : UInt8 → Bool) (v : Val) :
+    fnIsClass E pc pb v = .int (if (if v.isBytes then isClass pb (v.toBcs E) else isClass pc (v.toStr E)) then 1 else 0) := by
+  unfold fnIsClass
+  split <;> rfl
+
+example : fnIsClass toyEnv (fun c => c.isAlpha) (fun b => 97 ≤ b) (.str ['a', 'b']) = .int 1 ∧
+    fnIsClass toyEnv (fun c => c.isAlpha) (fun b => 97 ≤ b) .nil = .int 0 := by decide
+
+/-- str::frombcharcode: one code gives a byte character (REPAIR), otherwise a byte string of the codes -/
+theorem frombcharcode_spec (a b : Nat) (ha : a < 256) (hb : b < 256) :
+    fnFrombcharcode [.int a] = some (.bchr (UInt8.ofNat a)) ∧
+    fnFrombcharcode [.int a, .int b] = some (.mbs [UInt8.ofNat a, UInt8.ofNat b]) ∧
+    fnFrombcharcode [] = some (.mbs []) ∧ fnFromcharcode [] = some (.str []) := by
+  refine ⟨?_, ?_, rfl, rfl⟩
+  · simp [fnFrombcharcode, allInts, Val.toInt]; omega
+  · simp [fnFrombcharcode, allInts, Val.toInt]; omega
+
+example : fnFrombcharcode [.int 65] = some (.bchr 65) := by decide
+
+/-- two-argument sub/gsub (target $0): the count and the new record are those of `substitute` on the record's
+    characters (so `gsub_leftmost_nonoverlapping` and `sub_first_match` describe them), the record is left alone
+    when nothing was replaced, and NF becomes the number of blank-separated fields of the resulting record
+    (`split_blank` describes those).  Nothing else is returned, i.e. nothing else is written. -/
+theorem subst0_spec (E : Env) (limit : Option Nat) (pat : Pat) (a1 : Val) (rec0 : List Char) :
+    let r := substitute (pat.regex E).c '\\' '&' rec0 (a1.toStr E) limit
+    (fnSubst0 E limit pat a1 rec0).1 = .int r.2 ∧
+    (fnSubst0 E limit pat a1 rec0).2.1 = (if r.2 > 0 then r.1 else rec0) ∧
+    (fnSubst0 E limit pat a1 rec0).2.2 = (splitChars E.spaceC ' ' [' '] (fnSubst0 E limit pat a1 rec0).2.1).length ∧
+    (r.2 = 0 → (fnSubst0 E limit pat a1 rec0).2.1 = rec0) := by
+  intro r
+  unfold fnSubst0
+  generalize hr : substitute (pat.regex E).c '\\' '&' rec0 (a1.toStr E) limit = res at r
+  obtain ⟨out, cnt⟩ := res
+  simp only [r, true_and]
+  intro h; simp [h]
+
+example : fnSubst0 toyEnv none (.rex ['x']) (.str ['y']) "a b".toList = (.int 0, "a b".toList, 2) := by
+  have h := subst0_spec toyEnv none (.rex ['x']) (.str ['y']) "a b".toList
+  have hs : substitute (Pat.regex toyEnv (.rex ['x'])).c '\\' '&' "a b".toList ((Val.str ['y']).toStr toyEnv) none
+      = ("a b".toList, 0) := by
+    rw [gsub_leftmost_nonoverlapping, matchSeq_unfold]
+    simp [belowLimit, render, Pat.regex, toyEnv]
+  simp only [hs] at h
+  obtain ⟨h1, h2, h3, _⟩ := h
+  have h2' : (fnSubst0 toyEnv none (.rex ['x']) (.str ['y']) "a b".toList).2.1 = "a b".toList := by simpa using h2
+  rw [h2'] at h3
+  have hn : (splitChars toyEnv.spaceC ' ' [' '] "a b".toList).length = 2 := by
+    unfold splitChars
+    rw [piecesLoop_unfold]; simp [tokChars, delimMode, delimScan, tokSpaces, nextOrNull, toyEnv]
+    rw [piecesLoop_unfold]; simp [tokChars, delimMode, delimScan, tokSpaces, nextOrNull, toyEnv]
+  ext <;> simp_all
 
 end Hawk.StrFn
